@@ -9,6 +9,10 @@ setuptools.setup(script_args=['build_ext', '--inplace', ...]):
                                   numpy_parser.pyx is left out (numpy is not installed here)
   * cassandra/<m>.py  for m in PY_MODULES                (setup.py: cython_candidates)
 
+Build products are additionally kept in a content-addressed cache (/var/tmp/verif-cy-cache/<sha256 of all
+build inputs>; see below, VERIF_CY_CACHE=0 disables it): the tree is always copied afresh, only the gcc
+work is skipped when every input is byte-identical to an earlier build.
+
 cassandra.io.libevwrapper is not built (no ev.h on this machine; not in C07's statement).
 
 API (used by checks/c07.py, and usable by C39's compiled half):
@@ -182,6 +186,106 @@ def _so_name(path):
     return os.path.basename(path).split(".")[0]
 
 
+# ----------------------------------------------------------------------------
+# content-addressed cache of build products (VERIF_CY_CACHE=0 switches it off)
+#
+# The products of a build are a pure function of the build inputs (every .pyx/.pxd/.pxi/.c/.h of the
+# copied tree, plus the nine .py modules in "full" mode, the interpreter, Cython, gcc and the flags).
+# They are kept under /var/tmp/verif-cy-cache/<sha256 of the inputs>/ so that a second run on an
+# unchanged tree (the usual case for ./run <ID> quick, and for C39 after C07) copies nine small .so
+# files instead of spending 25-60 s in gcc.  Any change to any input is a different key, so the cache
+# cannot be stale; the directory is removed by remove_stale() once nothing was added for STALE_SECONDS.
+# ----------------------------------------------------------------------------
+
+CACHE_DIR = os.path.join(SCRATCH_PARENT, PREFIX + "cache")
+CACHE_VERSION = "1"
+
+
+def _cache_enabled():
+    return os.environ.get("VERIF_CY_CACHE", "1") not in ("0", "no", "off", "")
+
+
+def _tool_versions():
+    import sysconfig
+    try:
+        import Cython
+        cy = Cython.__version__
+    except Exception:
+        cy = "?"
+    try:
+        cc = subprocess.run([(sysconfig.get_config_var("CC") or "gcc").split()[0], "--version"],
+                            stdout=subprocess.PIPE, stderr=subprocess.STDOUT, text=True).stdout.splitlines()[0]
+    except Exception:
+        cc = "?"
+    return "|".join([sys.version, cy, cc, sysconfig.get_config_var("CFLAGS") or "", CACHE_VERSION])
+
+
+def _cache_key(root, mode):
+    import hashlib
+    h = hashlib.sha256()
+    h.update(("%s|%s|" % (mode, _tool_versions())).encode())
+    pkg = os.path.join(root, "cassandra")
+    names = [n for n in sorted(os.listdir(pkg)) if n.endswith((".pyx", ".pxd", ".pxi", ".c", ".h"))]
+    if mode == "full":
+        names += ["%s.py" % m for m in PY_MODULES]
+    for n in names:
+        with open(os.path.join(pkg, n), "rb") as f:
+            data = f.read()
+        h.update(("%s:%d:" % (n, len(data))).encode())
+        h.update(data)
+    return h.hexdigest()
+
+
+def _expected_modules(root, mode):
+    mods = ["cmurmur3"] + [p[:-4] for p in _pyx_list(root)]
+    if mode == "full":
+        mods += PY_MODULES
+    return sorted(mods)
+
+
+def _restore(key, root, mode):
+    src = os.path.join(CACHE_DIR, key)
+    if not os.path.isdir(src):
+        return False
+    sos = glob.glob(os.path.join(src, "*.so"))
+    if sorted(_so_name(p) for p in sos) != _expected_modules(root, mode):
+        return False
+    for so in sos:
+        shutil.copy2(so, os.path.join(root, "cassandra", os.path.basename(so)))
+    return True
+
+
+def _store(key, root):
+    try:
+        os.makedirs(CACHE_DIR, exist_ok=True)
+        final = os.path.join(CACHE_DIR, key)
+        if os.path.isdir(final):
+            return
+        tmp = "%s.tmp-%d" % (final, os.getpid())
+        shutil.rmtree(tmp, ignore_errors=True)
+        os.makedirs(tmp)
+        for so in glob.glob(os.path.join(root, "cassandra", "*.so")):
+            shutil.copy2(so, os.path.join(tmp, os.path.basename(so)))
+        try:
+            os.rename(tmp, final)
+        except OSError:
+            shutil.rmtree(tmp, ignore_errors=True)     # somebody else stored the same key first
+    except OSError:
+        pass                                           # the cache is an optimisation only
+
+
+def _build_or_restore(root, mode):
+    """-> seconds spent building (0.0 when the products came from the cache)"""
+    key = _cache_key(root, mode) if _cache_enabled() else None
+    if key and _restore(key, root, mode):
+        _STATE["from_cache"] = _STATE.get("from_cache", []) + [mode]
+        return 0.0
+    t = _run_build(root, mode)
+    if key:
+        _store(key, root)
+    return t
+
+
 def _derive_pyx_root(full_root, pyx_root):
     """pyx-only tree = sources + the .so files of cmurmur3 and the .pyx modules taken from the full build."""
     _copy_tree(pyx_root)
@@ -213,12 +317,12 @@ def ensure(mode="pyx"):
                         shutil.rmtree(out["pyx"], ignore_errors=True)
                         os.makedirs(out["pyx"])
                         _copy_tree(out["pyx"])
-                        _STATE["times"]["pyx"] = _run_build(out["pyx"], "pyx")
+                        _STATE["times"]["pyx"] = _build_or_restore(out["pyx"], "pyx")
                 else:
                     shutil.rmtree(out["full"], ignore_errors=True)
                     os.makedirs(out["full"])
                     _copy_tree(out["full"])
-                    _STATE["times"]["full"] = _run_build(out["full"], "full")
+                    _STATE["times"]["full"] = _build_or_restore(out["full"], "full")
                     shutil.rmtree(out["pyx"], ignore_errors=True)
                     os.makedirs(out["pyx"])
                     _derive_pyx_root(out["full"], out["pyx"])
